@@ -1,6 +1,8 @@
 // C10 harness: formulas placed as location invariants and edge guards of real XML models, through the public entry
-// point parse_XML_file (XML reader -> parser -> DocumentBuilder -> TypeChecker).
-//   c10            one model path per stdin line; for every model a block
+// points parse_XML_file / parse_XML_buffer / parse_XML_fd (XML reader -> parser -> DocumentBuilder -> TypeChecker).
+// The three entry points set up their libxml2 readers separately, so each of them is a way the same label text reaches
+// (or fails to reach) the type checker.
+//   c10            one model per stdin line: `<path>` (= file) or `<file|buffer|fd> <path>`; for every model a block
 //     BEGIN <path> rc=<rc>
 //     L <index> inv=<type of location.invariant after checking>
 //     E <index> guard=<type of edge.guard after checking>
@@ -9,19 +11,42 @@
 //     END
 #include "common.hpp"
 
+#include <fcntl.h>
+#include <fstream>
+#include <sstream>
+#include <unistd.h>
+
 using namespace vh;
 
 int main()
 {
     std::ios::sync_with_stdio(false);
-    std::string path;
-    while (std::getline(std::cin, path)) {
-        if (path.empty()) continue;
+    std::string line;
+    while (std::getline(std::cin, line)) {
+        if (line.empty()) continue;
+        std::string entry = "file", path = line;
+        if (auto sp = line.find(' '); sp != std::string::npos) {
+            entry = line.substr(0, sp);
+            path = line.substr(sp + 1);
+        }
         Document doc;
         int rc = -99;
         std::string exc;
         try {
-            rc = parse_XML_file(path.c_str(), &doc, true);
+            if (entry == "buffer") {
+                std::ifstream in(path, std::ios::binary);
+                std::stringstream ss;
+                ss << in.rdbuf();
+                rc = in ? parse_XML_buffer(ss.str().c_str(), &doc, true) : -98;
+            } else if (entry == "fd") {
+                int fd = open(path.c_str(), O_RDONLY);
+                rc = fd >= 0 ? parse_XML_fd(fd, &doc, true) : -98;
+                if (fd >= 0) close(fd);
+            } else if (entry == "file") {
+                rc = parse_XML_file(path.c_str(), &doc, true);
+            } else {
+                rc = -97;  // unknown entry point: the check treats any rc != 0 as a protocol failure
+            }
         } catch (std::exception& ex) {
             exc = ex.what();
         }
